@@ -248,7 +248,8 @@ def collect_S(pid, tier, seed):
     return obs, meta
 
 
-K_HARNESS = {"conv": ["C01", "C02"], "order": ["C05", "C02"], "names": ["C03", "C02"], "iter_history": ["C06", "C02"], "range_pair": ["C07", "C02"]}
+K_HARNESS = {"conv": ["C01", "C02"], "order": ["C05", "C02"], "names": ["C03", "C02"], "iter_history": ["C06", "C02"], "range_pair": ["C07", "C02"],
+             "std_size_hint": ["C06", "C07"]}
 
 
 def collect_K(pid, tier):
@@ -262,6 +263,8 @@ def collect_K(pid, tier):
     for name, v in sorted(r["harnesses"].items()):
         parts = name.split("::")
         kind = parts[-1]
+        if kind.startswith("size_hint_"):
+            kind = "std_size_hint"
         if pid not in K_HARNESS.get(kind, []):
             continue
         modname = parts[0]
